@@ -9,6 +9,7 @@ use crate::src::Src;
 use crate::{check, nopanic, tryp};
 use bc_components::DigestProvider;
 use bc_envelope::prelude::*;
+use bc_envelope::known_values;
 use bc_rand::SeededRandomNumberGenerator;
 use std::collections::BTreeSet;
 
@@ -19,7 +20,7 @@ pub fn prop() -> Prop {
         max_len: 400,
         quick: 30_000,
         thorough: 300_000,
-        rule: "choice sequence -> envelope of serialised size 1 B .. 100 KB (log-uniform, padded with a byte-string payload) x {add_salt, add_salt_using(seeded), add_salt_with_len(n) for n in 0..64 and large, add_salt_in_range(a..=b) with a<=b, add_salt_instance, add_assertion_salted(p,o,true|false), add_assertion_envelope_salted, add_assertions_salted} x 12 independent repetitions (64 in one case in 16). oracle: result = original + exactly one new assertion with predicate known value 15 ('salt') whose object is #6.40018(byte string of length L); removing it restores the original bytes; add_salt: L within [max(8, ceil(0.05 s)), max(that+8, ceil(0.25 s))] for serialised size s; with_len(n): L = n, refused for n < 8; in_range(a..=b): a <= L <= b, refused for a < 8; salted assertion: found by its predicate, is a node whose subject is the assertion (p,o) and whose only assertion is a salt sized for that assertion; unsalted add is byte-identical to add_assertion; independent saltings have pairwise distinct digests (also in elided form) and, when the range has more than one value, not all the same length. non-trivial: size >= 200 B or a salted-assertion case; distinct by FNV-64 of (encoding, operation); salted add of an already elided / compressed / encrypted assertion (3 repetitions): one salt on it, digests pairwise distinct; add_assertions_salted with 2-4 assertions of very different sizes: one salt each, sized for its own assertion, pairwise different; one case in sixteen salts the same bytes on two fresh threads (different salts); unsalted adds of an assertion already held in elided / compressed / plain form change nothing",
+        rule: "choice sequence -> envelope of serialised size 1 B .. 100 KB (log-uniform, padded with a byte-string payload) x {add_salt, add_salt_using(seeded), add_salt_with_len(n) for n in 0..64 and large, add_salt_in_range(a..=b) with a<=b, add_salt_instance, add_assertion_salted(p,o,true|false), add_assertion_envelope_salted, add_assertions_salted} x 12 independent repetitions (64 in one case in 16). oracle: result = original + exactly one new assertion with predicate known value 15 ('salt') whose object is #6.40018(byte string of length L); removing it restores the original bytes; add_salt: L within [max(8, ceil(0.05 s)), max(that+8, ceil(0.25 s))] for serialised size s; with_len(n): L = n, refused for n < 8; in_range(a..=b): a <= L <= b, refused for a < 8; salted assertion: found by its predicate, is a node whose subject is the assertion (p,o) and whose only assertion is a salt sized for that assertion; unsalted add is byte-identical to add_assertion; independent saltings have pairwise distinct digests (also in elided form) and, when the range has more than one value, not all the same length. non-trivial: size >= 200 B or a salted-assertion case; distinct by FNV-64 of (encoding, operation); salted add of an already elided / compressed / encrypted assertion (3 repetitions): one salt on it, digests pairwise distinct; add_assertions_salted with 2-4 assertions of very different sizes: one salt each, sized for its own assertion, pairwise different; one case in sixteen salts the same bytes on two fresh threads (different salts); unsalted adds of an assertion already held in elided / compressed / plain form change nothing; a salted add of an assertion that carries assertions of its own keeps them and adds exactly one salt",
         assumptions: &["OS RNG is not broken: 12 independent salts of >= 8 bytes collide with probability < 2^-57"],
         extra: None,
     }
@@ -320,6 +321,27 @@ pub fn run(data: &[u8], ctx: &mut Ctx) -> Outcome {
             check!(ctx, seen.insert(rm.digest()), "salted-obscured", &format!("{}/repeat", okey), "two independent salted adds of an {} assertion gave the same digest", fname);
         }
         ctx.nontrivial = true;
+    }
+    // --- a salted add of an assertion that carries assertions of its own (a note, a date): what is added is
+    // THAT assertion - its own assertions stay - plus exactly one salt (no draws: one fixed shape per case)
+    {
+        let decorated = Envelope::new_assertion("C17-decorated", (size % 1000) as u64).add_assertion(known_values::NOTE, "since the beginning").add_assertion("weight", 3);
+        let dm = tryp!(ctx, bridge::read_out(&decorated), "salted-decorated", "C17/salted-decorated");
+        let r = nopanic!(ctx, e.add_assertion_envelope_salted(decorated.clone(), true), "salted-decorated", "C17/salted-decorated");
+        let r = tryp!(ctx, r.map_err(|x| x.to_string()), "salted-decorated", "C17/salted-decorated");
+        let rm = tryp!(ctx, nopanic!(ctx, check_digests(&r), "salted-decorated", "C17/salted-decorated"), "salted-decorated", "C17/salted-decorated");
+        let old: BTreeSet<_> = m.assertions().iter().map(|a| a.digest()).collect();
+        let new: Vec<&M> = rm.assertions().iter().filter(|a| !old.contains(&a.digest())).collect();
+        check!(ctx, new.len() == 1, "salted-decorated", "C17/salted-decorated/shape", "a salted add of a decorated assertion added {} elements", new.len());
+        if let M::Node(sub, a) = new[0] {
+            let own: BTreeSet<_> = dm.assertions().iter().map(|x| x.digest()).collect();
+            let kept = a.iter().filter(|x| own.contains(&x.digest())).count();
+            let salts = a.iter().filter(|x| salt_len(x).is_ok()).count();
+            check!(ctx, sub.digest() == dm.subject().digest() && kept == own.len() && salts == 1 && a.len() == own.len() + 1, "salted-decorated", "C17/salted-decorated/shape", "a salted add of the decorated assertion {} produced {}: its own {} assertions must stay and exactly one salt be added (kept {}, salts {})", dm.show(), new[0].show(), own.len(), kept, salts);
+        } else {
+            check!(ctx, false, "salted-decorated", "C17/salted-decorated/shape", "a salted add of a decorated assertion did not produce a decorated assertion: {}", new[0].show());
+        }
+        ctx.class("salted-add-of-decorated-assertion");
     }
     // --- the array form with several assertions (drawn last): every assertion gets a salt of its own,
     // sized for that assertion; the batch is what adding them one by one gives (up to the random bytes)
